@@ -27,6 +27,7 @@ type SQLEvent struct {
 	Fault      string
 	CallerGone bool          // the caller's context had already ended when the statement was delivered
 	Issued     time.Duration // instant at which the caller issued the statement
+	InSwitch   bool          // issued from inside the switchover procedure (not by a background check)
 	Pending    bool          // marker of a delayed statement; Final is its outcome once delivered
 	Final      *SQLEvent
 	It         *iterRec // state-handler invocation of Src that was open when the statement was issued (nil: none)
@@ -200,7 +201,7 @@ func (s *Sim) scheduleCall(c *call) {
 	if flt == "hang" {
 		s.trace("SQL-HANG %s %s", c.key, c.query)
 		// the statement was attempted: oracles see it as sent, never applied, never answered
-		s.mon.onSQL(&SQLEvent{Seq: s.evSeq, T: s.now(), Src: c.src, Dst: c.dst, Kind: queryKind(c.query), Query: c.query, Args: c.args, Mutating: isMutating(c.query), Fault: "hang", Err: "hang", It: c.it, Issued: c.issued})
+		s.mon.onSQL(&SQLEvent{Seq: s.evSeq, T: s.now(), Src: c.src, Dst: c.dst, Kind: queryKind(c.query), Query: c.query, Args: c.args, Mutating: isMutating(c.query), Fault: "hang", Err: "hang", It: c.it, Issued: c.issued, InSwitch: c.inSwitch})
 		return
 	}
 	if strings.HasPrefix(flt, "slow:") {
@@ -209,7 +210,7 @@ func (s *Sim) scheduleCall(c *call) {
 		flt = ""
 		if n >= 1000 {
 			// may outlast the caller's deadline: until it is delivered the monitors see a pending attempt
-			c.marker = &SQLEvent{Seq: s.evSeq, T: s.now(), Src: c.src, Dst: c.dst, Kind: queryKind(c.query), Query: c.query, Args: c.args, Mutating: isMutating(c.query), Fault: "slow", Err: "pending", Pending: true, It: c.it, Issued: c.issued}
+			c.marker = &SQLEvent{Seq: s.evSeq, T: s.now(), Src: c.src, Dst: c.dst, Kind: queryKind(c.query), Query: c.query, Args: c.args, Mutating: isMutating(c.query), Fault: "slow", Err: "pending", Pending: true, It: c.it, Issued: c.issued, InSwitch: c.inSwitch}
 			s.mon.onSQL(c.marker)
 		}
 	}
@@ -343,7 +344,7 @@ func (s *Sim) deliverSQL(c *call, flt string) {
 		}
 	}()
 	s.stats.SQLCalls++
-	ev := &SQLEvent{Seq: s.evSeq, T: s.now(), Src: c.src, Dst: c.dst, Kind: queryKind(c.query), Query: c.query, Args: c.args, Mutating: isMutating(c.query), Fault: flt, It: c.it, Issued: c.issued}
+	ev := &SQLEvent{Seq: s.evSeq, T: s.now(), Src: c.src, Dst: c.dst, Kind: queryKind(c.query), Query: c.query, Args: c.args, Mutating: isMutating(c.query), Fault: flt, It: c.it, Issued: c.issued, InSwitch: c.inSwitch}
 	if c.ctx != nil && c.ctx.Err() != nil {
 		ev.CallerGone = true
 	}
